@@ -7,7 +7,8 @@
 //!           observation (responses, solo responses, ...) for the oracle
 //!   prog  = view grammar, see `build`
 //!   sched = coarse: ((0 r) | (1 r g) | (2 r) | (3 r) | (4 r)) ...   (start / fire gate / run / finish /
-//!                   create = build_response only, first poll later)
+//!                   create = build_response only, first poll later; (5 r) abort = drop the response from
+//!                   outside; (6 r) run the request's runnable spawned tasks even after its response is gone)
 //!           fine  : (n n n ...)  each n picks (mod the number of enabled actions) the next single
 //!                   task poll / gate completion / request start
 //!
@@ -207,7 +208,7 @@ fn probe(env: &Env, probe: i64, kind: i64, slot: Option<i64>) -> String {
 ///  (5 v child)         <Provider value=Tag1(..)>
 ///  (6 g p child)       Suspend::new(async { gate g; probe p; child built after the await })
 ///  (7 fallback child)  <Suspense>
-///  (8 kind g p1 p2 p3 child)   Resource (kind 0) / OnceResource (1) whose fetcher probes before
+///  (8 kind g p1 p2 p3 child)   Resource (kind 0; 2 = refetched right after creation) / OnceResource (1) whose fetcher probes before
 ///                      (p1) and after (p2) awaiting gate g, read by `.await` in a Suspend (p3)
 ///  (9 id child)        on_cleanup logging `id`
 ///  (10 slot child)     StoredValue (slot < 100) / RwSignal (slot >= 100) allocation
@@ -272,8 +273,13 @@ fn build(p: &Sexp, env: &Env) -> AnyView {
                 }
             };
             let env = env.clone();
-            if kind == 0 {
+            if kind == 0 || kind == 2 {
                 let res = Resource::new(|| (), move |_| fetch());
+                if kind == 2 {
+                    // the source changes after creation: the loader task has to call the fetcher
+                    // again (its synchronous part, probe p1, then runs inside that task)
+                    res.refetch();
+                }
                 Suspend::new(async move {
                     let v = res.await;
                     let s = probe(&env, p3, K_ASYNC, None);
@@ -733,6 +739,8 @@ enum Act {
     PollMain(usize),
     PollTask(usize, usize), // request, local task number
     Create(usize),          // build_response only; the first poll comes later
+    Abort(usize),           // the server drops the response (client went away): no wrapper, whatever is ambient
+    RunLate(usize),         // poll the request's runnable spawned tasks, also after its response is gone
 }
 
 struct RunOut {
@@ -763,6 +771,42 @@ fn apply(reqs: &mut [Req], o: &Opts, a: &Act, allow_final: bool) -> bool {
             set_cur(r);
             reqs[r - 1].start(o, false);
             reqs[r - 1].poll_main();
+            set_cur(0);
+            true
+        }
+        Act::Abort(r) => {
+            if !reqs[r - 1].started() || reqs[r - 1].finished() {
+                return false;
+            }
+            set_cur(r);
+            let old = std::mem::replace(&mut reqs[r - 1].main, Main::Done);
+            drop(old);
+            set_cur(0);
+            true
+        }
+        Act::RunLate(r) => {
+            if !reqs[r - 1].started() {
+                return false;
+            }
+            set_cur(r);
+            for _ in 0..10_000 {
+                let mut progressed = false;
+                let mut k = 0;
+                loop {
+                    let ts = tasks_of(r);
+                    if k >= ts.len() {
+                        break;
+                    }
+                    if task_woken(ts[k]) {
+                        poll_task(ts[k]);
+                        progressed = true;
+                    }
+                    k += 1;
+                }
+                if !progressed {
+                    break;
+                }
+            }
             set_cur(0);
             true
         }
@@ -866,7 +910,7 @@ fn run_world(progs: &[Sexp], active: &[usize], o: &Opts, plan: Plan) -> RunOut {
         Plan::Coarse(sched) => {
             for a in sched {
                 let r = match *a {
-                    Act::Start(r) | Act::Fire(r, _) | Act::Run(r) | Act::Finish(r) | Act::Create(r) => r,
+                    Act::Start(r) | Act::Fire(r, _) | Act::Run(r) | Act::Finish(r) | Act::Create(r) | Act::Abort(r) | Act::RunLate(r) => r,
                     _ => 0,
                 };
                 if r == 0 || r > n || !active.contains(&r) {
@@ -888,6 +932,22 @@ fn run_world(progs: &[Sexp], active: &[usize], o: &Opts, plan: Plan) -> RunOut {
                 }
             }
             ambient.push(ambient_probe(n));
+            // schedules with aborted responses / late tasks (oracle-only): let every task that
+            // outlived its response see its futures complete, and observe what it reads then
+            if sched.iter().any(|a| matches!(a, Act::Abort(_) | Act::RunLate(_))) {
+                for &r in active {
+                    for g in 0..reqs[r - 1].gates.len() {
+                        let a = Act::Fire(r, g);
+                        if apply(&mut reqs, o, &a, true) {
+                            acts.push(a);
+                        }
+                    }
+                    let a = Act::RunLate(r);
+                    if apply(&mut reqs, o, &a, true) {
+                        acts.push(a);
+                    }
+                }
+            }
         }
         Plan::Fine(sched) => {
             let mut i = 0;
@@ -964,6 +1024,8 @@ fn parse_coarse(s: &Sexp) -> Vec<Act> {
                 2 => Act::Run(r),
                 3 => Act::Finish(r),
                 4 => Act::Create(r),
+                5 => Act::Abort(r),
+                6 => Act::RunLate(r),
                 _ => return None,
             })
         })
@@ -1024,7 +1086,7 @@ fn run_case(c: &Sexp) -> Sexp {
             .acts
             .iter()
             .filter(|a| match a {
-                Act::Start(x) | Act::Fire(x, _) | Act::Run(x) | Act::Finish(x) | Act::PollMain(x) | Act::PollTask(x, _) | Act::Create(x) => *x == r,
+                Act::Start(x) | Act::Fire(x, _) | Act::Run(x) | Act::Finish(x) | Act::PollMain(x) | Act::PollTask(x, _) | Act::Create(x) | Act::Abort(x) | Act::RunLate(x) => *x == r,
             })
             .cloned()
             .collect();
